@@ -313,14 +313,15 @@ func c05Kinds(mode string, g int) {
 	t0 := time.Unix(1000, 0).UTC()
 	tc := time.Unix(77, 0).UTC()
 	kind := v.Choice("kind", 4)
-	var zeroInstant bool
+	var zeroInstant, timeEQ bool
+	var tv time.Time
 	key := []string{"f", "t", "b", "s"}[kind]
 	fg := v.Float64("fg")
 	mk := func(catch bool) *z.StructSchema {
 		var n z.ZogSchema
 		switch kind {
 		case 0:
-			s := z.Float64().GT(fg).Required()
+			s := z.Float64().GT(fg).LTE(1e308).Required()
 			if catch {
 				s = s.Catch(1.5)
 			}
@@ -329,6 +330,8 @@ func c05Kinds(mode string, g int) {
 			s := z.Time().After(t0).Required()
 			if zeroInstant {
 				s = z.Time().Before(t0).Required()
+			} else if timeEQ {
+				s = z.Time().EQ(tv.In(time.FixedZone("Q", -7200))).Required() // the same instant: never fails
 			}
 			if catch {
 				s = s.Catch(tc)
@@ -352,8 +355,10 @@ func c05Kinds(mode string, g int) {
 	f := v.Float64("f")
 	sec := v.Int64("sec")
 	v.Assume(sec > -(1<<40) && sec < 1<<40)
-	tv := time.Unix(sec, 0).UTC()
+	tv = time.Unix(sec, 0).UTC()
+	v.Assume(sec != -62135596800)
 	zeroInstant = mode == "validate" && kind == 1 && v.Choice("zero-instant-in-zone", 2) == 1
+	timeEQ = kind == 1 && !zeroInstant && v.Choice("eq-same-instant-other-zone", 2) == 1
 	if zeroInstant {
 		tv = time.Time{}.In(time.FixedZone("CET", 3600)) // a present value (not time.Time{}) that passes Before(t0)
 	}
@@ -362,17 +367,21 @@ func c05Kinds(mode string, g int) {
 	y := v.Int("y")
 	var d1, d2 D
 	var e1, e2 z.ZogIssueMap
+	valueGiven := true
 	if mode == "validate" {
 		// the zero value is the absent value of Validate
 		d1 = D{F: f, T: tv, B: b, S: s, Y: y}
 		d2 = d1
+		valueGiven = f != 0 // (zero, either sign, is the absent value)
 		e1, e2 = mk(true).Validate(&d1), mk(false).Validate(&d2)
 	} else {
 		in := map[string]any{}
 		switch v.Choice("class", 3) {
 		case 0: // missing
+			valueGiven = false
 		case 1:
 			in[key] = []int{1} // not coercible to any primitive kind but String
+			valueGiven = false
 		default:
 			in[key] = []any{f, tv, b, s}[kind]
 		}
@@ -387,9 +396,20 @@ func c05Kinds(mode string, g int) {
 		v.Assert(k == "y" || k == "$first", "C05:catching-node-reported-an-issue")
 	}
 	failed := len(e2[key]) > 0
+	if kind == 0 && valueGiven {
+		// absolutely (the twin comparison is blind to a slip that moves both sides): a float value
+		// fails GT(fg).LTE(1e308) exactly when the Go comparisons say so, NaN and infinities included
+		v.Assert(failed == !(f > fg && f <= 1e308), "C05:failure-did-not-yield-catch-value")
+	}
 	if zeroInstant {
 		// a present value that passes its test: nothing fails, nothing is caught
 		v.Assert(!failed && d1.T == tv, "C05:catch-value-used-without-failure")
+	}
+	if timeEQ && (mode == "validate" || len(e1) == 0 || true) {
+		// equal instants in different locations are equal: with a time VALUE as input nothing fails
+		if mode == "validate" {
+			v.Assert(!failed && d1.T.Equal(tv), "C05:catch-value-used-without-failure")
+		}
 	}
 	if failed {
 		v.Cover("caught")
@@ -592,7 +612,7 @@ func C09_Jobs() []string {
 			out = append(out, j)
 		}
 	}
-	out = append(out, "params-order", "input-key-order", "input-case-variants", "options-order/parse", "options-order/validate", "empty-tag-order/parse", "empty-tag-order/validate", "index-map-input")
+	out = append(out, "params-order", "input-key-order", "input-case-variants", "options-order/parse", "options-order/validate", "empty-tag-order/parse", "empty-tag-order/validate", "index-map-input", "many-issues-per-path", "many-issues-per-call")
 	return out
 }
 func C09_Covers() []string { return []string{"both-clean", "both-issues"} }
@@ -730,6 +750,53 @@ func C09_Run(job string) {
 		return
 	}
 	switch job {
+	case "many-issues-per-path":
+		// several issues on one path (3, 4, 5 failing tests of one field) next to other failing fields
+		nt := 3 + v.Choice("more-tests", 3)
+		run := func() string {
+			var d struct{ Password, Name, Nick string }
+			pw := z.String().Min(8).ContainsDigit().ContainsUpper()
+			if nt >= 4 {
+				pw = pw.ContainsSpecial()
+			}
+			if nt >= 5 {
+				pw = pw.HasPrefix("Z")
+			}
+			errs := z.Struct(z.Schema{"password": pw, "name": z.String().Min(8), "nick": z.String().Min(8).Max(1)}).Parse(map[string]any{"password": "abc", "name": "n", "nick": "nn"}, &d)
+			out := v.Sprint(len(errs))
+			for _, k := range []string{"password", "name", "nick"} {
+				out += "|" + k + ":" + fullCodes(errs[k])
+			}
+			return out
+		}
+		a, b := run(), run()
+		v.Cover("both-issues")
+		v.Cover("both-clean")
+		v.Assert(a == b, "C09:issues-depend-on-order")
+		return
+	case "many-issues-per-call":
+		// far more issues than any test suite produces (200 failing items next to a failing field):
+		// every one of them is reported on every run
+		n := []int{100, 127, 128, 129, 200, 300}[v.Choice("items", 6)]
+		in := make([]any, n)
+		for i := range in {
+			in[i] = "zz"
+		}
+		run := func() (int, int, int) {
+			var d struct {
+				Title string
+				Tags  []int
+			}
+			errs := z.Struct(z.Schema{"title": z.String().Min(5), "tags": z.Slice(z.Int())}).Parse(map[string]any{"title": "t", "tags": in}, &d)
+			return len(errs), len(errs["title"]), len(errs["tags[0]"]) + len(errs["tags["+v.Itoa(n-1)+"]"])
+		}
+		l1, t1, e1 := run()
+		l2, t2, e2 := run()
+		v.Cover("both-issues")
+		v.Cover("both-clean")
+		v.Assert(l1 == l2 && t1 == t2 && e1 == e2, "C09:issues-depend-on-order")
+		v.Assert(l1 == n+2 && t1 == 1 && e1 == 2, "C09:issues-depend-on-order")
+		return
 	case "index-map-input":
 		// an input map given to a list node (index-keyed, as some form decoders produce): whatever
 		// the library makes of it, it makes the same of it on every run
@@ -822,7 +889,7 @@ func C09_Run(job string) {
 // C13 — Parse and Validate agree on fully populated values.
 
 func C13_Jobs() []string {
-	out := []string{"post/prim", "post/struct", "post/slice", "post/catch", "post/slice-tests", "post/custom-writes", "post/empty-tag", "post/embedded-dest"}
+	out := []string{"post/prim", "post/struct", "post/slice", "post/catch", "post/slice-tests", "post/custom-writes", "post/empty-tag", "post/embedded-dest", "post/long-slice"}
 	for _, j := range shapeJobs() {
 		m, _, _, _ := split3(j)
 		if m == "validate" {
@@ -928,6 +995,28 @@ func c13Post(kind string) {
 	}
 	var l1, l2 string
 	switch kind {
+	case "long-slice":
+		// the same paths in both modes for every item of a list of 18 and of 102 items
+		n := []int{18, 102}[v.Choice("len", 2)]
+		at := []int{9, 10, 11, 15, 16, 17, 99, 100, 101}[v.Choice("at", 9)]
+		if at >= n {
+			at = n - 1
+		}
+		vals := make([]int, n)
+		in := make([]any, n)
+		for i := range vals {
+			vals[i], in[i] = 50, 50
+		}
+		vals[at], in[at] = 500, 500
+		sc := z.Struct(z.Schema{"qty": z.Slice(z.Int().Required().LT(100))})
+		var d1, d2 struct{ Qty []int }
+		d1.Qty = vals
+		e1 := sc.Validate(&d1)
+		e2 := sc.Parse(map[string]any{"qty": in}, &d2)
+		v.Cover("agree-issues")
+		v.Assert(sameFullMaps(e1, e2), "C13:issues-differ-between-modes")
+		v.Assert(len(e1) == 2 && len(e2) == 2 && len(e2["qty["+v.Itoa(at)+"]"]) == 1, "C13:issues-differ-between-modes")
+		return
 	case "empty-tag":
 		// a destination field tagged with the empty string: the same issues (paths included) and
 		// values in both modes, at the root and nested
